@@ -84,6 +84,10 @@ pub fn generate(rng: &mut Rng, seed: u64, run: u64, max_len: usize) -> Trace {
         // a client that logs a failed write_all / write! and carries on with the next record
         params.push(("moves_on_after_failed_record".to_string(), 1));
     }
+    if rng.chance(1, 2) {
+        // the inner writer's write_vectored gathers (as File, Vec and the std handles do)
+        params.push(("gathering_writer".to_string(), 1));
+    }
     Trace { prop: "C06".into(), surface: surface.into(), input: wl.bytes, ops, faults, params, seed, run }
 }
 
@@ -586,6 +590,7 @@ impl Client<'_> {
 
 pub fn execute(t: &Trace, stats: &mut Stats, record: bool) -> Outcome {
     let w = SimWriter::new(t.faults.clone(), record);
+    w.st().gather = t.param("gathering_writer") == Some(1);
     let h = w.clone();
     let (_, map) = run_layout(&t.input);
     let mut client = Client {
